@@ -27,9 +27,10 @@ ASSUMPTIONS = [
 ]
 
 RENAME_SINGLE = ["{id} {comment}", "{id}_{adapter_name} {comment}", "{header} a={adapter_name}",
-                 "{id} {cut_prefix}|{cut_suffix}", "{id} ms={match_sequence}", "{id} rc={rc} {comment}"]
+                 "{id} {cut_prefix}|{cut_suffix}", "{id} ms={match_sequence}", "{id} rc={rc} {comment}",
+                 "c={comment} a={adapter_name}", "read {comment}"]
 RENAME_PAIRED = ["{id} {comment}", "{id} {r1.adapter_name}+{r2.adapter_name} rn={rn}", "{id} {adapter_name} {comment}",
-                 "{id} {r1.cut_prefix}|{r2.cut_suffix}", "{id} ms={match_sequence}"]
+                 "{id} {r1.cut_prefix}|{r2.cut_suffix}", "{id} ms={match_sequence}", "{id} c={r2.comment} {r1.comment}"]
 RENAME_CHAIN = ["{id} {comment}", "{header} z", "{id}"]
 
 
